@@ -6,7 +6,7 @@ from core import *
 import gen_types as G
 import c_layout as L
 
-BUDGET = {"quick": dict(n=260, depth=3, shards=12, nops=8), "thorough": dict(n=4000, depth=4, shards=16, nops=20)}
+BUDGET = {"quick": dict(n=520, depth=3, shards=12, nops=8), "thorough": dict(n=4000, depth=4, shards=16, nops=20)}
 
 
 # ---- python mirror of Update.v (used for the direct oracle and to generate fitting values)
@@ -114,11 +114,14 @@ def gen_case(rng, depth, nops):
         if r < 0.16:
             c["ops"].append({"mode": rng.choice(["misuse_ctx", "misuse_offset"]), "expect": None, "misuse": "wrong-owner"}); continue
         p, et = rng.choice(paths)
+        apool = [(q, qt) for q, qt in paths if qt["k"] == "array"]
+        if apool and rng.random() < 0.3:      # whole-array operations deserve their share
+            p, et = rng.choice(apool)
         old = vget(cur, p)
         via = rng.choice(["handle", "view"])
         if r < 0.70:          # fitting assignment of a leaf or of a whole nested compound of equal size
             new = gen_like(rng, et, old, fit=True)
-            form = "np" if (et["k"] == "array" and rng.random() < 0.3) else "py"
+            form = "np" if (et["k"] == "array" and rng.random() < 0.5) else "py"
             exp = retag(et, old, new)
             op = {"mode": "set", "path": [list(s) for s in p], "new": new, "via": via, "form": form, "expect": exp is not None}
             c["ops"].append(op)
@@ -132,6 +135,13 @@ def gen_case(rng, depth, nops):
                 cur = vset(cur, p, retag(et, old, new))
         elif r < 0.90 and et["k"] == "array" and len(old["items"]) >= 1:   # misfit: update with another length / shape
             sh = list(old["shape"]); ax = rng.randrange(len(sh)); sh[ax] += rng.choice([1, 2]) if sh[ax] < 2 or rng.random() < 0.5 else -1
+            if len(sh) > 1 and rng.random() < 0.5:
+                # same number of items, another shape (only dynamic axes can differ from the class shape at all)
+                n0 = len(old["items"])
+                alts = [list(reversed(old["shape"])), [n0] + [1] * (len(sh) - 1), [1] * (len(sh) - 1) + [n0]]
+                alts = [a for a in alts if a != old["shape"] and all(cd is None or cd == d for cd, d in zip(et["shape"], a))]
+                if alts:
+                    sh = rng.choice(alts)
             n = 1
             for d in sh: n *= d
             if any(cd is not None and cd != d for cd, d in zip(et["shape"], sh)) and False:
@@ -154,6 +164,30 @@ def gen_case(rng, depth, nops):
             c["ops"].append({"mode": "set", "path": [list(s) for s in q], "new": new, "raw_index": idx, "via": via, "expect": None,
                              "misuse": "index-out-of-range" + ("-negative" if idx[ax] < 0 else "")})
     return c
+
+
+def systematic_cases(rng):
+    """whole-array and single-item assignments for every axis order of 2-D / 3-D arrays nested in a struct"""
+    import itertools
+    out = []
+    prep = {"kind": "numpy", "cap": 1024, "al": 8, "poison": 0xA5, "pre": [["alloc", 24]]}
+    for nd, dims in ((2, [2, 3]), (3, [2, 3, 2])):
+        for order in itertools.permutations(range(nd)):
+            for dyn in (False, True):
+                at = {"k": "array", "item": {"k": "scalar", "name": "Int16"}, "shape": [None if dyn else d for d in dims], "order": list(order)}
+                t = {"k": "struct", "name": G.struct_name([["upd", str(order), dyn]]), "fields": [["k", {"k": "scalar", "name": "Int64"}], ["a", at], ["z", {"k": "scalar", "name": "Int8"}]]}
+                n = 1
+                for d in dims: n *= d
+                mk = lambda off: {"shape": list(dims), "items": [[(5 * i + off) & 255, (i + off) & 255] for i in range(n)]}
+                v = {"f": [[1, 0, 0, 0, 0, 0, 0, 0], mk(0), [9]]}
+                ops = []
+                for j, (form, via) in enumerate((("np", "handle"), ("py", "view"), ("np", "view"))):
+                    ops.append({"mode": "set", "path": [["f", 1]], "new": mk(10 * (j + 1)), "via": via, "form": form, "expect": True})
+                    if j == 0:
+                        ops.append({"mode": "grow", "extra": 64})
+                ops.append({"mode": "set", "path": [["f", 1], ["i", n - 2]], "new": [200, 100], "via": "handle", "form": "py", "expect": True})
+                out.append({"type": t, "value": v, "prep": dict(prep, kind=rng.choice(["numpy", "bytearray"])), "ops": ops})
+    return out
 
 
 def path_term(p):
@@ -255,8 +289,9 @@ def run(ctx):
     rng = random.Random(ctx.seed)
     cdir = os.path.join(VERIF, "corpus", "update")
     corpus = [json.load(open(os.path.join(cdir, f))) for f in sorted(os.listdir(cdir))] if os.path.isdir(cdir) else []
-    cases = list(corpus)
-    while len(cases) < bud["n"] + len(corpus):
+    cases = list(corpus) + systematic_cases(rng)
+    nfixed = len(cases)
+    while len(cases) < bud["n"] + nfixed:
         cases.append(gen_case(rng, bud["depth"], bud["nops"]))
     sh = (len(cases) + bud["shards"] - 1) // bud["shards"]
     results = []
